@@ -533,6 +533,8 @@ func (e *Engine) Stop() {
 	}
 
 	e.stopListeners()
+	// blocking mode connections are not known to the poller engine.
+	e.closeAllConns()
 	e.Engine.Stop()
 }
 
